@@ -5,7 +5,7 @@
 # harness' path dependencies pointed at /work/mutrepo; keeps its own build directories).
 set -e
 PATCH="$1"; shift
-MR=/work/mutrepo; MT=/work/mt
+MR=/work/mutrepo${SLOT:-}; MT=/work/mt${SLOT:-}
 [ -d $MR ] || git -C /repo worktree add -q --detach $MR HEAD
 git -C $MR checkout -q --detach "$(git -C /repo rev-parse HEAD)"
 git -C $MR checkout -q -- .
@@ -13,7 +13,7 @@ git -C $MR clean -fdq -e target
 if [ "$PATCH" != none ]; then git -C $MR apply "$PATCH"; fi
 mkdir -p $MT
 rsync -a --delete --exclude .lake --exclude target --exclude run --exclude .git --exclude evidence /verif/ $MT/
-sed -i 's#"/repo/#"/work/mutrepo/#' $MT/harness/Cargo.toml
+sed -i "s#\"/repo/#\"$MR/#" $MT/harness/Cargo.toml
 cd $MT
 (cd lean/CwPlus && lake build driver >/dev/null 2>&1 || true)
 rc=0
